@@ -87,7 +87,7 @@ class GuardRun:
                     ops.append("(from_str %s)" % (c.oracle if c.oracle else "none"))
                 elif c.op == "de":
                     ops.append("(de %s)" % (c.oracle if c.oracle else "none"))
-                elif c.op in ("default", "arb_range"):
+                elif c.op in ("default", "arb_range", "msgs"):
                     ops.append("(%s)" % c.op)
                 elif c.op == "arb":
                     ops.append("(arb%s)" % c.arg[2:-1])
@@ -144,7 +144,7 @@ class GuardRun:
             for c in ops:
                 if c.op in ("from_str", "de"):
                     parts.append("(%s %s)" % (c.op, c.oracle if c.oracle else "none"))
-                elif c.op in ("default", "arb_range"):
+                elif c.op in ("default", "arb_range", "msgs"):
                     parts.append("(%s)" % c.op)
                 elif c.op == "arb":
                     parts.append("(arb%s)" % c.arg[2:-1])
